@@ -92,7 +92,18 @@ fn run_case(cx: &CaseCtx, rep: &mut Report) {
 			if yields + open_yields > 0 {
 				pending = true;
 			}
-			sources.add(&name, Src::Mem { ts: ts.clone(), pyramid, default_stream: rng.chance(0.25), yields, open_yields });
+			// a later source whose single-tile reads fail exactly where an earlier source already has the tile
+			// (a damaged region, an unreadable file): the overlay's answer there is the earlier source's tile,
+			// whatever the later ones would have said
+			let failing = i > 0 && rng.chance(0.3);
+			if failing {
+				let earlier: BTreeSet<Key> = models.iter().flat_map(|m: &BTreeMap<Key, Vec<u8>>| m.keys().cloned()).collect();
+				if !earlier.is_empty() {
+					sources.failing.insert(name.clone(), std::sync::Arc::new(earlier));
+					rep.count("cases_with_a_later_source_failing_under_earlier_tiles", 1);
+				}
+			}
+			sources.add(&name, Src::Mem { ts: ts.clone(), pyramid, default_stream: !failing && rng.chance(0.25), yields, open_yields });
 		}
 		let mut text = format!("from_container filename={name}");
 		let mut model: BTreeMap<Key, Vec<u8>> = ts.tiles.iter().map(|(k, v)| (*k, comp::decompress(v, ts.comp).unwrap())).collect();
